@@ -19,6 +19,7 @@ import (
 	"fmt"
 
 	epb "github.com/google/gce-tcb-verifier/proto/endorsement"
+	"github.com/google/go-tdx-guest/abi"
 	tcpb "github.com/google/go-tdx-guest/proto/checkconfig"
 	"google.golang.org/protobuf/proto"
 )
@@ -67,7 +68,17 @@ func TdxPolicy(ctx context.Context, endorsement *epb.VMLaunchEndorsement, opts *
 		if opts.RAMGiB != 0 && m.GetRamGib() != uint32(opts.RAMGiB) {
 			continue
 		}
+		// An empty or short MRTD reference value would be skipped by go-tdx-guest, not compared.
+		if len(m.GetMrtd()) != abi.MrTdSize {
+			return nil, fmt.Errorf("endorsed MRTD for %d GiB has %d bytes, want %d", m.GetRamGib(),
+				len(m.GetMrtd()), abi.MrTdSize)
+		}
 		mrtds = append(mrtds, m.GetMrtd())
+	}
+	// An empty any_mr_td leaves the MRTD unchecked, so a configuration without an endorsed
+	// measurement must be an error.
+	if len(mrtds) == 0 {
+		return nil, fmt.Errorf("endorsement has no TDX measurement for ram_gib=%d", opts.RAMGiB)
 	}
 	if err := modifyTdxPolicy(result, mrtds, opts); err != nil {
 		return nil, err
